@@ -1209,6 +1209,12 @@ impl Simulator {
                 Err(StepBreak::Err(e)) => break Err(e)
             }
 
+            // If this step turned the MCR off (e.g., the OS's HALT routine), the program has halted:
+            // that takes precedence over a breakpoint matching on the same step. Otherwise the halt
+            // would be reported as a breakpoint and resuming would run the HALT routine a second time.
+            if !self.mcr.load(Ordering::Relaxed) {
+                break Ok(PauseCondition::MCROff);
+            }
             // After executing, check that any breakpoints were hit.
             if self.breakpoints.iter().any(|bp| bp.check(self)) {
                 break Ok(PauseCondition::Breakpoint);
